@@ -355,4 +355,28 @@ Definition impl_build (s : sdl) : build_result :=
       end
   end.
 
+(* _bake_types runs inside `try: ... except Exception: pass`: the first type whose bake() raises
+   (an object naming an undefined or non-interface type in `implements`, a union naming an
+   undefined member) leaves every later type unbaked, so the possible types the interface check
+   sees are incomplete and _validate may report MORE than this model does (never less: the
+   offending type is reported by its own validator). *)
+Definition bake_aborts (g : gschema) : bool :=
+  existsb (fun t => match td_def t with
+                    | DObject ifs _ => existsb (fun i => match g_find g i with Some (DInterface _) => false | _ => true end) ifs
+                    | DUnion ms => existsb (fun m => negb (g_has_type g m)) ms
+                    | _ => false end) (g_types g).
+
 Definition builds (s : sdl) : bool := match impl_build s with Built _ => true | _ => false end.
+
+(* the steps of GraphQLSchema.bake and the validator lists this model transcribes, checked by
+   Proofs/Wiring.v against what harness/wiring.py extracts from the current source *)
+Definition model_bake_steps : list string :=
+  ["_inject_introspection_fields"; "_validate_extensions"; "_bake_extensions"; "bake_registered_objects"; "_bake_types"; "_validate"].
+Definition model_schema_validators : list string :=
+  ["_validate_schema_named_types"; "_validate_object_follow_interfaces"; "_validate_schema_root_types_exist";
+   "_validate_non_empty_object"; "_validate_union_is_acceptable"; "_validate_all_scalars_have_implementations";
+   "_validate_enum_values_are_unique"; "_validate_arguments_have_valid_type"; "_validate_input_type_composed_of_input_type";
+   "_validate_directive_implementation"].
+Definition model_extension_validators : list string :=
+  ["_validate_enum_extensions"; "_validate_input_object_extensions"; "_validate_object_extensions";
+   "_validate_interface_extensions"; "_validate_scalar_extensions"; "_validate_union_extensions"; "_validate_schema_extensions"].
